@@ -72,6 +72,9 @@ def fn_texts(sf):
                 cnt[k_] = cnt.get(k_, 0) + 1
                 a_, b_ = sf.toks[it.k0].start, sf.toks[it.k1].end
                 out[f"{k_}#{cnt[k_]}"] = (a_, b_, sf.text[a_:b_])
+            elif it.kind == "macro_rules":
+                a_, b_ = sf.toks[it.k0].start, sf.toks[it.k1].end
+                out[f"{prefix}::macro_rules {it.name}#1"] = (a_, b_, sf.text[a_:b_])
             elif it.kind in ("impl", "trait", "mod") and it.children:
                 rec(it.children, prefix + "/" + it.kind + " " + it.name)
     rec(sf.items, "")
@@ -97,13 +100,13 @@ def _alpha_normalise(relpath, text):
         cur = fn_texts(sf)
     except Exception:
         return text
-    from alpha import alpha_equal
+    from alpha import alpha_equal, macro_alpha_equal
     repl = []
     for key, (a_, b_, t_) in cur.items():
         bt = base.get(key)
         if bt is None or bt == t_:
             continue
-        if alpha_equal(t_, bt):
+        if (macro_alpha_equal(t_, bt) if "::macro_rules " in key else alpha_equal(t_, bt)):
             repl.append((a_, b_, bt, key))
     # (nested functions: only the outermost replacement of overlapping ones counts)
     repl.sort()
@@ -260,6 +263,8 @@ class Piece:
         if mode != "stub":
             text = self._expand_macros(text)
             text = self._inline_new_helpers(text, real, rimpl if (rimpl is not None and ritem is not rimpl) else (ritem if ritem.kind == "impl" else None))
+            if mode == "verify":
+                text = self._inline_combinators(text)
         if mode != "stub" and any(getattr(fs, "try_explicit", False) for fs in self.fnspecs.values()):
             text = self._desugar_try(text)
         if mode != "stub":
@@ -416,6 +421,222 @@ class Piece:
                                       "note": f"new helper `{it.name}` (absent from the baseline function list) inlined at its call"})
             text = text[:start] + exp + text[toks[kc].end:]
         raise Undecided("T-INLINE did not terminate")
+
+    # ---- T-COMB ---------------------------------------------------------------------------------------------------------
+    COMB_METHODS = {"map", "and_then", "map_or", "map_or_else", "unwrap_or_else", "ok_or_else", "map_err", "or_else",
+                    "is_some_and", "is_ok_and", "is_none_or", "then"}
+    ITER_SOURCES = {"iter", "iter_mut", "into_iter", "chars", "bytes", "lines", "split", "splitn", "rsplit", "split_whitespace", "keys", "values",
+                    "enumerate", "zip", "rev", "skip", "take", "drain", "windows", "chunks", "filter", "filter_map", "flat_map", "peekable",
+                    "char_indices", "incoming", "args", "vars", "cloned", "copied", "chain", "step_by", "skip_while", "take_while"}
+    ITER_SINKS = {"collect", "sum", "count", "any", "all", "find", "next", "for_each", "fold", "rev", "filter", "enumerate", "last", "nth",
+                  "position", "max", "min", "zip", "skip", "take", "peekable", "flatten", "chain", "cloned", "copied", "filter_map", "find_map"}
+
+    def _inline_combinators(self, text):
+        """T-COMB (pre-pass): a call of an Option / Result combinator with a closure argument that was not in the function when its contract
+        was written - `R.map(|p| B)`, `.and_then`, `.map_or`, `.map_or_else`, `.unwrap_or_else`, `.ok_or_else`, `.map_err`, `.or_else`,
+        `.is_some_and`, `.is_ok_and`, `.is_none_or`, `bool.then` - is written out as the `match` it stands for, the closure's body in
+        place (so that it is verified like any other code instead of being a closure the verifier knows nothing about).  The receiver may be
+        an Option or a Result: `crate::comb::View` splits either into "a value / none", `Wit` / `FromNo` put the result back together (prelude stdx,
+        exact specs).  A body with `?`, `return`, `break`, `continue` or `.await` is left alone (it would mean something else in place)."""
+        if "stdx" not in self.unit.preludes or os.environ.get("VERIF_NO_COMB"):
+            return text
+        base = (_baseline_src or {}).get(self.relpath.split("#")[0]) if _baseline_src is not None else None
+        if base is None:
+            _alpha_normalise(self.relpath.split("#")[0], "")      # loads the recorded texts
+            base = (_baseline_src or {}).get(self.relpath.split("#")[0])
+        if not base:
+            return text
+        if not hasattr(self.unit, "_base_norm"):
+            self.unit._base_norm = {}
+        bkey = self.relpath.split("#")[0]
+        if bkey not in self.unit._base_norm:
+            self.unit._base_norm[bkey] = " ".join(" ".join(t.text for t in lex(v)) for v in base.values())
+        base_norm = self.unit._base_norm[bkey]
+        counter = 0
+        for _round in range(60):
+            toks = lex(text)
+            n = len(toks)
+            done = True
+            for k in range(2, n - 3):
+                if not (toks[k].kind == "ident" and toks[k].text in self.COMB_METHODS and toks[k - 1].text == "." and toks[k + 1].text == "("):
+                    continue
+                close = match_close(toks, k + 1)
+                # arguments at top level
+                args, cur, j = [], k + 2, k + 2
+                while j < close:
+                    if toks[j].text in OPEN:
+                        j = match_close(toks, j) + 1
+                        continue
+                    if toks[j].text == "|" and (j == cur or toks[j - 1].text == "move"):
+                        # closure parameter list: skip to its closing bar
+                        j2 = j + 1
+                        while j2 < close and toks[j2].text != "|":
+                            if toks[j2].text in OPEN:
+                                j2 = match_close(toks, j2)
+                            j2 += 1
+                        j = j2 + 1
+                        continue
+                    if toks[j].text == ",":
+                        args.append((cur, j))
+                        cur = j + 1
+                    j += 1
+                if cur < close:
+                    args.append((cur, close))
+                meth = toks[k].text
+
+                def closure(a):
+                    """(params text list, body text) of the closure toks[a[0]:a[1]], or None"""
+                    i0, i1 = a
+                    if toks[i0].text == "move":
+                        i0 += 1
+                    if toks[i0].text != "|":
+                        return None
+                    if toks[i0 + 1].text == "|" and toks[i0 + 1].start == toks[i0].end:
+                        pe = i0 + 1
+                        params = []
+                    else:
+                        pe = i0 + 1
+                        while pe < i1 and toks[pe].text != "|":
+                            if toks[pe].text in OPEN:
+                                pe = match_close(toks, pe)
+                            pe += 1
+                        # split parameters, drop type ascriptions
+                        params, c0, q, ang = [], i0 + 1, i0 + 1, 0
+                        colon = None
+                        while q <= pe:
+                            tx = toks[q].text if q < pe else ","
+                            if q < pe and tx in OPEN:
+                                q = match_close(toks, q) + 1
+                                continue
+                            if tx == "<":
+                                ang += 1
+                            elif tx == ">" and ang:
+                                ang -= 1
+                            elif tx == ":" and ang == 0 and colon is None and toks[q + 1].text != ":" and toks[q - 1].text != ":":
+                                colon = q
+                            elif tx == "," and ang == 0:
+                                endp = colon if colon is not None else q
+                                params.append(text[toks[c0].start:toks[endp - 1].end])
+                                c0, colon = q + 1, None
+                            q += 1
+                    b0 = pe + 1
+                    if b0 >= i1:
+                        return None
+                    if toks[b0].text == "-" and toks[b0 + 1].text == ">":
+                        return None
+                    body_toks = toks[b0:i1]
+                    if any((t.kind == "ident" and t.text in ("return", "break", "continue", "await", "yield")) or t.text == "?" for t in body_toks):
+                        return None
+                    return params, text[toks[b0].start:toks[i1 - 1].end]
+
+                def pathfn(a, arity):
+                    """a path to a function (`String::new`, `Error::from`) standing where a closure could: read as `|x| PATH(x)` / `|| PATH()`"""
+                    i0, i1 = a
+                    if i1 <= i0 or not all(t.kind == "ident" or t.text == ":" for t in toks[i0:i1]) or toks[i1 - 1].kind != "ident":
+                        return None
+                    if not (i1 - i0 >= 4 or toks[i0].text[0].isupper()):
+                        return None      # a plain variable holding a closure is not a path to a function
+                    ptxt = text[toks[i0].start:toks[i1 - 1].end]
+                    return (["x0__"], f"{ptxt}(x0__)") if arity == 1 else ([], f"{ptxt}()")
+
+                cls = [closure(a) for a in args]
+                if args and cls[-1] is None:
+                    ar_ = {"map": 1, "and_then": 1, "map_or": 1, "map_or_else": 1, "map_err": 1, "is_some_and": 1, "is_ok_and": 1, "is_none_or": 1,
+                           "ok_or_else": 0, "then": 0}.get(meth)
+                    if ar_ is not None:
+                        cls[-1] = pathfn(args[-1], ar_)
+                if meth == "map_or_else" and len(args) == 2 and cls[0] is None:
+                    cls[0] = pathfn(args[0], 0)
+                if not args or cls[-1] is None:
+                    continue
+                site_norm = " ".join(t.text for t in toks[k - 1:close + 1])
+                if site_norm in base_norm:
+                    continue          # the call was there when the contract was written: its closure is dealt with by the unit
+                # receiver: the postfix chain before `.METHOD`
+                j = k - 2
+                while j > 0:
+                    tx = toks[j].text
+                    if tx in (")", "]"):
+                        depth = 0
+                        while True:
+                            if toks[j].text in (")", "]"):
+                                depth += 1
+                            elif toks[j].text in ("(", "["):
+                                depth -= 1
+                                if depth == 0:
+                                    break
+                            j -= 1
+                        if toks[j - 1].kind == "ident" or toks[j - 1].text in (")", "]", "?", ">"):
+                            j -= 1
+                            continue
+                        break
+                    if tx == "?":
+                        j -= 1
+                        continue
+                    if toks[j].kind in ("ident", "lit"):
+                        if toks[j - 1].text == "." and toks[j - 2].text != ".":
+                            j -= 2
+                            continue
+                        if toks[j - 1].text == ":" and toks[j - 2].text == ":":
+                            j -= 3
+                            continue
+                        break
+                    if tx == ">":
+                        break
+                    break
+                r0 = j
+                if toks[r0].kind not in ("ident", "lit") and toks[r0].text not in ("(", "["):
+                    continue
+                chain = {toks[q].text for q in range(r0, k) if toks[q].kind == "ident" and toks[q - 1].text == "." and toks[q + 1].text == "("}
+                after = toks[close + 2].text if (close + 2 < n and toks[close + 1].text == ".") else ""
+                if chain & self.ITER_SOURCES or after in self.ITER_SINKS and meth in ("map", "and_then"):
+                    continue
+                recv = text[toks[r0].start:toks[k - 2].end]
+                counter += 1
+                c = f"{counter}__"
+                V = "crate::comb::V"
+                split = f"let (v{c}, w{c}) = crate::comb::View::view__({recv});"
+                params, body = cls[-1]
+                pat = "(" + ", ".join(params) + ")" if len(params) != 1 else params[0]
+                new = None
+                if meth == "map" and len(args) == 1 and len(params) == 1:
+                    new = f"{{ {split} match v{c} {{ {V}::Yes({pat}) => crate::comb::Wit::yes__(w{c}, {body}), {V}::No(n{c}) => crate::comb::Wit::no__(w{c}, n{c}) }} }}"
+                elif meth == "and_then" and len(args) == 1 and len(params) == 1:
+                    new = f"{{ {split} match v{c} {{ {V}::Yes({pat}) => {{ {body} }}, {V}::No(n{c}) => crate::comb::FromNo::from_no__(n{c}) }} }}"
+                elif meth == "map_or" and len(args) == 2 and len(params) == 1 and cls[0] is None:
+                    dflt = text[toks[args[0][0]].start:toks[args[0][1] - 1].end]
+                    new = f"{{ let r{c} = {recv}; let d{c} = {dflt}; let (v{c}, w{c}) = crate::comb::View::view__(r{c}); match v{c} {{ {V}::Yes({pat}) => {{ {body} }}, {V}::No(_) => d{c} }} }}"
+                elif meth == "map_or_else" and len(args) == 2 and len(params) == 1 and cls[0] is not None and len(cls[0][0]) <= 1:
+                    dp, db = cls[0]
+                    new = f"{{ {split} match v{c} {{ {V}::Yes({pat}) => {{ {body} }}, {V}::No({dp[0] if dp else '_'}) => {{ {db} }} }} }}"
+                elif meth == "unwrap_or_else" and len(args) == 1 and len(params) <= 1:
+                    new = f"{{ {split} match v{c} {{ {V}::Yes(x{c}) => x{c}, {V}::No({params[0] if params else '_'}) => {{ {body} }} }} }}"
+                elif meth == "ok_or_else" and len(args) == 1 and not params:
+                    new = f"(match {recv} {{ Some(x{c}) => Ok(x{c}), None => Err({body}) }})"
+                elif meth == "map_err" and len(args) == 1 and len(params) == 1:
+                    new = f"(match {recv} {{ Ok(x{c}) => Ok(x{c}), Err({pat}) => Err({body}) }})"
+                elif meth == "or_else" and len(args) == 1 and not params:
+                    new = f"(match {recv} {{ Some(x{c}) => Some(x{c}), None => {{ {body} }} }})"
+                elif meth == "or_else" and len(args) == 1 and len(params) == 1:
+                    new = f"(match {recv} {{ Ok(x{c}) => Ok(x{c}), Err({pat}) => {{ {body} }} }})"
+                elif meth == "is_some_and" and len(args) == 1 and len(params) == 1:
+                    new = f"(match {recv} {{ Some({pat}) => {{ {body} }}, None => false }})"
+                elif meth == "is_none_or" and len(args) == 1 and len(params) == 1:
+                    new = f"(match {recv} {{ Some({pat}) => {{ {body} }}, None => true }})"
+                elif meth == "is_ok_and" and len(args) == 1 and len(params) == 1:
+                    new = f"(match {recv} {{ Ok({pat}) => {{ {body} }}, Err(_) => false }})"
+                elif meth == "then" and len(args) == 1 and not params:
+                    new = f"(if {recv} {{ Some({body}) }} else {{ None }})"
+                if new is None:
+                    continue
+                self.rewrites_log.append({"rule": "T-COMB", "file": self.relpath, "item": self.spec,
+                                          "from": text[toks[r0].start:toks[close].end], "to": new})
+                text = text[:toks[r0].start] + new + text[toks[close].end:]
+                done = False
+                break
+            if done:
+                return text
+        raise Undecided("T-COMB did not terminate")
 
     def _expand_macros(self, text):
         for _round in range(200):
@@ -2493,7 +2714,12 @@ class Unit:
                                 self.bindsigs[bkey_] = binder_counts(p, nm_, fs_)
                                 wantb_ = (self.baseline_binders or {}).get(bkey_)
                                 if wantb_ is not None and self.bindsigs[bkey_] != wantb_:
-                                    self.rebound.add(nm_)
+                                    # (a name bound many times - the `e` of every `Err(e) =>` arm and `|e|` closure - is local to its
+                                    # arm; one more or one fewer of those says nothing about the others)
+                                    got_ = self.bindsigs[bkey_]
+                                    if got_ is None or any(got_.get(w_, 0) != c_ and min(got_.get(w_, 0), c_) <= 2 for w_, c_ in wantb_.items()) \
+                                            or any(w_ not in wantb_ and c_ <= 2 for w_, c_ in got_.items()):
+                                        self.rebound.add(nm_)
                             want_ = (self.baseline_opaque or {}).get(okey_)
                             if want_ is not None and (self.opaque[okey_] < 0 or self.opaque[okey_] > want_):
                                 # a closure whose result the verifier knows nothing about has been added: a failed obligation of this
